@@ -310,6 +310,7 @@ type c19Park struct {
 	point   string
 	goid    uint64
 	used    bool
+	plain   bool // parked at a point that is not part of a recalculation
 	arrived chan struct{}
 	release chan struct{}
 }
@@ -362,6 +363,25 @@ func (c *c19Ctl) hook(name string, keys []string) {
 			close(pk.arrived)
 			<-pk.release
 		}
+	case "store.before_persist":
+		// a writer between its append (and whatever it has recalculated so far) and the write of
+		// _localHeads: not inside a recalculation, nothing is logged
+		if len(keys) < 1 || keys[0] != c.id {
+			return
+		}
+		c.mu.Lock()
+		var pk *c19Park
+		if c.park != nil && !c.park.used && c.park.point == name {
+			pk = c.park
+			pk.used = true
+			pk.plain = true
+			pk.goid = c17Goid()
+		}
+		c.mu.Unlock()
+		if pk != nil {
+			close(pk.arrived)
+			<-pk.release
+		}
 	case "store.recalc":
 		if len(keys) < 6 {
 			return
@@ -385,7 +405,9 @@ func (c *c19Ctl) arm(point string) *c19Park {
 
 func (c *c19Ctl) releasePark(pk *c19Park) {
 	c.mu.Lock()
-	if pk.used {
+	if pk.used && pk.plain {
+		// (parked outside of any recalculation: the release is no event of the status log)
+	} else if pk.used {
 		c.log = append(c.log, c19Ev{goid: pk.goid, kind: "release"})
 	} else {
 		pk.used = true // disarm
@@ -758,7 +780,7 @@ func runC19Plan(r *Run, pl c19Plan, idx int) error {
 	ptr := fmt.Sprintf("%p", st)
 	ctl.sample(false)
 	var workers *sim.Gate
-	if pl.b != "replicate" {
+	if pl.b != "replicate" && pl.b != "load" {
 		workers = sim.TheHooks.Park("replicator.before_slot", "", 0)
 	}
 	var pk *c19Park
@@ -805,10 +827,27 @@ func runC19Plan(r *Run, pl c19Plan, idx int) error {
 			headTime = t
 		}
 	}
-	if err := s.SyncFrom(0, 1); err != nil {
+	var loadDone chan error
+	if pl.b == "load" {
+		// thread B is a Load of the store's own cached history (the store was reopened and not
+		// loaded), run to completion while A is parked
+		loadDone = make(chan error, 1)
+		go func() { loadDone <- st.Load(ctx, -1) }()
+	} else if err := s.SyncFrom(0, 1); err != nil {
 		return err
 	}
+	loadReturned := false
 	bSeen := func() bool {
+		if pl.b == "load" {
+			if !loadReturned {
+				select {
+				case <-loadDone:
+					loadReturned = true
+				default:
+				}
+			}
+			return loadReturned
+		}
 		if pl.b == "replicate" {
 			return sim.TheHooks.Count("store.load_end_done") > endsBefore
 		}
@@ -834,6 +873,13 @@ func runC19Plan(r *Run, pl c19Plan, idx int) error {
 	}
 	if aErr != nil {
 		return fmt.Errorf("c19 plan %s: thread A: %w", pl.name, aErr)
+	}
+	if loadDone != nil && !loadReturned {
+		select {
+		case <-loadDone:
+		case <-time.After(20 * time.Second):
+			return fmt.Errorf("c19 plan %s: the load did not return", pl.name)
+		}
 	}
 	ctl.sample(false)
 	if workers != nil {
@@ -887,6 +933,15 @@ func runC19Conc(r *Run) error {
 		{"writer-max||announcement+merge", "multi", "keyvalue", mx, "announce+replicate", 3, 5},
 		{"writer-max||announcement(single-writer)", "single-writer", "eventlog", mx, "announce", 0, 6},
 		{"writer-progress||merge(single-writer)", "single-writer", "keyvalue", pg, "replicate", 1, 5},
+		// the writer parked between its append and the write of _localHeads (outside of any
+		// recalculation) while a batch is announced, fetched and merged
+		{"writer-before-persist||merge", "multi", "keyvalue", "store.before_persist", "replicate", 1, 5},
+		{"writer-before-persist||announcement+merge", "multi", "eventlog", "store.before_persist", "announce+replicate", 2, 4},
+		{"writer-before-persist||merge(single-writer)", "single-writer", "eventlog", "store.before_persist", "replicate", 1, 5},
+		// ... and while the store's own cached history is loaded (the store was reopened, not
+		// loaded, and written to: the writer's entry has a small clock)
+		{"writer-before-persist||load(single-writer)", "single-writer", "eventlog", "store.before_persist", "load", 0, 4},
+		{"writer-before-persist||load(single-writer,kv)", "single-writer", "keyvalue", "store.before_persist", "load", 1, 5},
 		{"load-max||announcement(single-writer)", "single-load", "eventlog", mx, "announce", 3, 4},
 		{"load-progress||merge(single-writer)", "single-load", "keyvalue", pg, "replicate", 2, 5},
 	}
